@@ -155,7 +155,7 @@ func (d *c10) doClaim(n int) []byte {
 	for _, ch := range d.queue {
 		a, b := ch.ptr+uintptr(ch.off), ch.ptr+uintptr(len(ch.data))
 		if lo < b && a < hi {
-			c.Failf("claim-overlaps-queued-data", "Claim(%d) returned [%d,%d) of the buffer, which overlaps the unconsumed bytes [%d,%d) of chunk seq=%d", n, lo-d.base(), hi-d.base(), a-d.base(), b-d.base(), ch.seq)
+			c.Failf("claim-overlaps-queued-data", "Claim(%d) returned [%s,%s) of the buffer, which overlaps the unconsumed bytes [%s,%s) of chunk seq=%d", n, d.rel(lo), d.rel(hi), d.rel(a), d.rel(b), ch.seq)
 		}
 	}
 	if len(d.queue) > 0 && lo < d.queue[0].ptr {
@@ -170,6 +170,15 @@ func (d *c10) doClaim(n int) []byte {
 }
 
 func (d *c10) base() uintptr { return d.bufBase }
+
+// rel renders an address as an offset into the buffer; an address outside it is not printed (it would differ from
+// process to process and make a replay diverge).
+func (d *c10) rel(p uintptr) string {
+	if p < d.bufBase || p-d.bufBase > uintptr(d.bb.Size()) {
+		return "outside-the-buffer"
+	}
+	return fmt.Sprint(p - d.bufBase)
+}
 
 var _ = fmt.Sprint
 
@@ -215,7 +224,13 @@ func (d *c10) arm() {
 		}
 		got := d.bb.Commit(n)
 		if len(got) != n || (n > 0 && addr(got) != addr(claim)) {
-			d.c.Failf("commit-result", "Commit(%d) after a %d-byte claim returned %d bytes at offset %d (claim at %d)", n, len(claim), len(got), addr(got)-d.bufBase, addr(claim)-d.bufBase)
+			// offsets are relative to the buffer: an absolute address must never enter a message (it differs from
+			// process to process and a replay would not reproduce the same trace)
+			where := "an empty slice"
+			if len(got) > 0 {
+				where = fmt.Sprintf("%d bytes at offset %s", len(got), d.rel(addr(got)))
+			}
+			d.c.Failf("commit-result", "Commit(%d) after a %d-byte claim returned %s (claim at %s)", n, len(claim), where, d.rel(addr(claim)))
 		}
 		if n >= 2 {
 			seq := int(claim[0])<<8 | int(claim[1])
